@@ -107,15 +107,30 @@ Proof. exact kg_read_cost_linear. Qed.
 Print Assumptions C12_lexer_cost_linear.
 
 (* for the environment regenerated from /repo; type-checks only while the translator finds, in /repo, exactly the
-   call sites and loops of the model (e.g. the `(`-branch of _factor parses its body once) *)
+   call sites and loops of the model (e.g. the `(`-branch of _factor parses its body once) and scanners that are plain
+   character loops (klongpy/parser.py uses no regular expressions: the model's scanners are linear by construction) *)
 Theorem C12_cost_quadratic_generated :
-  parser_call_sites_as_modelled = true /\
+  parser_call_sites_as_modelled = true /\ scanners_are_character_loops = true /\
   forall t, (cost_of (prog_c genv (fuel_for (length t)) t) <= 630 * ((length t + 1) * (length t + 1)))%nat.
 Proof.
   exact (conj (eq_refl : parser_call_sites_as_modelled = true)
-              (fun t => prog_cost_quadratic genv (eq_refl : z_in 59 (delims genv) = true) (fuel_for (length t)) t)).
+        (conj (eq_refl : scanners_are_character_loops = true)
+              (fun t => prog_cost_quadratic genv (eq_refl : z_in 59 (delims genv) = true) (fuel_for (length t)) t))).
 Qed.
 Print Assumptions C12_cost_quadratic_generated.
+
+(* the same for the environment regenerated from /repo; type-checks only while the translator finds no access to the
+   variable context (self._context, self[...]) in prog/_expr/_factor/_read_fn_args/_apply_adverbs, in any method they call,
+   and in read_cond/read_expr_array: the model's parser has no variable context at all *)
+Theorem C12_parse_repeatable_generated :
+  parser_does_not_read_variables = true /\
+  forall m t f1 f2, (f1 >= fuel_for (length t))%nat -> (f2 >= fuel_for (length t))%nat ->
+  prog (env_with_module genv m) f1 t = prog (env_with_module genv m) f2 t /\ prog (env_with_module genv m) f1 t <> OOF.
+Proof.
+  exact (conj (eq_refl : parser_does_not_read_variables = true)
+              (fun m => prog_fuel_irrelevant_module genv m (eq_refl : z_in 59 (delims genv) = true) (eq_refl : comment_guard genv = true))).
+Qed.
+Print Assumptions C12_parse_repeatable_generated.
 
 (* T12.comment_refuted (R6, repaired in /repo by `fix: .comment("") no longer hangs the parser`):
    without the guard the marker loop of read_sys_comment never ends for the empty marker, whatever the fuel *)
